@@ -103,7 +103,31 @@ def handleL2 (j : Json) : Except String Json := do
     -- C07, second sentence: arguments the model binds (one usable argument per input type)
     -- must not be rejected by a statement Prepare accepted
     let wrongReject : Bool := (match m.bind with | .ok _ => true | .error _ => false) && o.prepOk && !o.bindOk
-    let aff := affected m o ++ (if wrongReject then ["C07"] else [])
+    -- the layer is fed the implementation's parsed nodes; the parser model is asked as well:
+    -- if the nodes differ, what is bound below is not what the query text names, and the
+    -- expansions of the kinds concerned are touched (C03 inputs, C04 inserts, C05 outputs)
+    let qcls := (optList j "qcls").toList.filterMap fun e =>
+      match e with
+      | .arr #[r, k] => match r.getNat?, k.getNat? with
+        | .ok r, .ok k => some (r, k)
+        | _, _ => none
+      | _ => none
+    let kindProps (l : List OSeg) : List String :=
+      (if l.any (fun s => s.kind == .member || s.kind == .slice) then ["C03"] else []) ++
+      (if l.any (fun s => s.kind == .astInsert || s.kind == .colInsert || s.kind == .basicInsert) then ["C04"] else []) ++
+      (if l.any (fun s => s.kind == .output) then ["C05"] else [])
+    let parserAff : List String :=
+      if (getBool j "noParserCheck").toOption.getD false then [] else
+      match parse (mkEnv q qcls.toArray) with
+      | .ok msegs =>
+        let ms := msegs.map (Seg.toOSeg q)
+        if ms == segs then [] else (kindProps ms ++ kindProps segs).eraseDups
+      | .error _ => kindProps segs
+    -- a Prepare that rejects what the model accepts (or the reverse) touches the expansions
+    -- of the statement besides C07
+    let prepDiffers : Bool := (match m.prep with | .ok _ => true | .error _ => false) != o.prepOk
+    let aff := (affected m o ++ (if wrongReject then ["C07"] else []) ++ parserAff ++
+      (if prepDiffers then kindProps segs else [])).eraseDups
     -- hypothesis of the no-panic theorems (C18): every argument tree has the shape its type
     -- descriptors promise (`ArgWF`: an untyped nil, or `ValWF`, decided by `valWF`)
     let argsWF := args.all fun a => (match a with | .invalid => true | _ => false) || valWF tt 64 a
